@@ -8,7 +8,11 @@
 //!
 //! Cells with a mechanism model (M+S, evaluated in Coq against the real code): MemoryBlobStore
 //! histories, ZipOffsetBlobStore builder + file image (uncompressed configurations), MixedLenBlobStore,
-//! SimpleZipBlobStore, ZeroLengthBlobStore.  Everything else is S-only (oracle).
+//! SimpleZipBlobStore, ZeroLengthBlobStore, PlainBlobStore (with close + reopen and the directory listing),
+//! the wrapper stores (Zstd, Huffman framing, Rans/Dictionary) and CachedBlobStore over any modelled inner
+//! store, stacks of them, DictZipBlobStore's bookkeeping (`XHist` / `XPlain` / `XPlainOpen` cases: the whole
+//! history on the whole stack; opaque codecs enter as the table of (input, output) pairs seen between two
+//! layers).  Everything else is S-only (oracle).
 use crate::util::*;
 use serde_json::{json, Value};
 use std::collections::{HashMap, HashSet};
@@ -26,10 +30,10 @@ use zipora::succinct::rank_select::RankSelectInterleaved256;
 use zipora::RecordId;
 
 const HEADER: &str = r#"From ZV.Common Require Import Base Run.
-From ZV.C03 Require Import Model.
+From ZV.C03 Require Import Model ModelStore ModelWrap ModelCached ModelDictZip ModelPlain ModelZero ModelCases.
 Open Scope N_scope.
-Definition case_t : Type := case.
-Definition ok (c : case_t) : bool := check_case c.
+Definition case_t : Type := xcase.
+Definition ok (c : case_t) : bool := check_xcase c.
 "#;
 
 type Nt = NestLoudsTrieBlobStore<RankSelectInterleaved256>;
@@ -49,12 +53,28 @@ trait DynStore {
     fn can_reopen(&self) -> bool { false }
 }
 
+/// What reached one layer of a stack (recorded by the `B` adapter that sits between two layers): the records handed
+/// down by the layer above and the ids the layer below answered with; removals.  Level k = below k wrappers.
+#[derive(Clone, Debug)]
+enum XEv { Put { level: usize, data: Vec<u8>, id: Option<RecordId> }, Remove { level: usize, id: RecordId } }
+thread_local! { static XLOG: std::cell::RefCell<Vec<XEv>> = std::cell::RefCell::new(vec![]); }
+fn xlog(e: XEv) { XLOG.with(|l| l.borrow_mut().push(e)); }
+fn xlog_take() -> Vec<XEv> { XLOG.with(|l| std::mem::take(&mut *l.borrow_mut())) }
+
 /// A boxed store that is itself a BlobStore, so that zipora's generic wrappers can be stacked at run time.
-struct B(Box<dyn DynStore>);
+struct B(Box<dyn DynStore>, usize);
 impl BlobStore for B {
     fn get(&self, id: RecordId) -> ZResult<Vec<u8>> { self.0.bs_ref().get(id) }
-    fn put(&mut self, data: &[u8]) -> ZResult<RecordId> { self.0.bs().put(data) }
-    fn remove(&mut self, id: RecordId) -> ZResult<()> { self.0.bs().remove(id) }
+    fn put(&mut self, data: &[u8]) -> ZResult<RecordId> {
+        let r = self.0.bs().put(data);
+        xlog(XEv::Put { level: self.1, data: data.to_vec(), id: r.as_ref().ok().copied() });
+        r
+    }
+    fn remove(&mut self, id: RecordId) -> ZResult<()> {
+        let r = self.0.bs().remove(id);
+        if r.is_ok() { xlog(XEv::Remove { level: self.1, id }); }
+        r
+    }
     fn contains(&self, id: RecordId) -> bool { self.0.bs_ref().contains(id) }
     fn size(&self, id: RecordId) -> ZResult<Option<usize>> { self.0.bs_ref().size(id) }
     fn len(&self) -> usize { self.0.bs_ref().len() }
@@ -65,9 +85,16 @@ impl BlobStore for B {
 impl BatchBlobStore for B {
     fn put_batch<I: IntoIterator<Item = Vec<u8>>>(&mut self, blobs: I) -> ZResult<Vec<RecordId>> {
         let v: Vec<Vec<u8>> = blobs.into_iter().collect();
-        if self.0.has_batch() { self.0.put_batch_dyn(v) } else {
+        if self.0.has_batch() {
+            let r = self.0.put_batch_dyn(v.clone());
+            match &r {
+                Ok(ids) if ids.len() == v.len() => for (d, id) in v.iter().zip(ids.iter()) { xlog(XEv::Put { level: self.1, data: d.clone(), id: Some(*id) }); },
+                _ => for d in v.iter() { xlog(XEv::Put { level: self.1, data: d.clone(), id: None }); },
+            }
+            r
+        } else {
             let mut ids = vec![];
-            for b in v { ids.push(self.0.bs().put(&b)?); }
+            for b in v { ids.push(self.put(&b)?); }
             Ok(ids)
         }
     }
@@ -76,9 +103,14 @@ impl BatchBlobStore for B {
         Ok(ids.into_iter().map(|id| self.0.bs_ref().get(id).ok()).collect())
     }
     fn remove_batch<I: IntoIterator<Item = RecordId>>(&mut self, ids: I) -> ZResult<usize> {
-        if self.0.has_batch() { return self.0.remove_batch_dyn(ids.into_iter().collect()); }
+        if self.0.has_batch() {
+            let v: Vec<RecordId> = ids.into_iter().collect();
+            let r = self.0.remove_batch_dyn(v.clone());
+            if r.is_ok() { for id in v { xlog(XEv::Remove { level: self.1, id }); } }
+            return r;
+        }
         let mut n = 0;
-        for id in ids { if self.0.bs().remove(id).is_ok() { n += 1; } }
+        for id in ids { if self.remove(id).is_ok() { n += 1; } }
         Ok(n)
     }
 }
@@ -174,11 +206,12 @@ fn dictzip_store(preset: &str) -> Result<DictZipBlobStore, String> {
 struct Env { dir: String, n: u64 }
 
 /// Build a store stack from its spec "outer/inner/.../base".
-fn make_store(spec: &str, env: &mut Env) -> Result<Box<dyn DynStore>, String> {
+fn make_store(spec: &str, env: &mut Env) -> Result<Box<dyn DynStore>, String> { make_store_at(spec, env, 0) }
+fn make_store_at(spec: &str, env: &mut Env, depth: usize) -> Result<Box<dyn DynStore>, String> {
     let (head, rest) = match spec.find('/') { Some(i) => (&spec[..i], Some(&spec[i + 1..])), None => (spec, None) };
     let e = |x: zipora::ZiporaError| x.to_string();
     if let Some(rest) = rest {
-        let inner = B(make_store(rest, env)?);
+        let inner = B(make_store_at(rest, env, depth + 1)?, depth + 1);
         return Ok(match head {
             "zstd1" => Box::new(ZstdBlobStore::new(inner, 1)),
             "zstd3" => Box::new(ZstdBlobStore::with_default_compression(inner)),
@@ -265,7 +298,7 @@ fn gen_rec(r: &mut Rng, common_len: u64) -> Value {
 // ---------------------------------------------------------------------------------------------
 // histories
 // ---------------------------------------------------------------------------------------------
-struct Ctx { sum: Summary, shards: CoqShards, budget: usize, n_hist: usize, env: Env }
+struct Ctx { sum: Summary, shards: CoqShards, budget: usize, n_hist: usize, n_xhist: usize, n_xmem: usize, env: Env }
 
 fn resolve(idref: &Value, issued: &[RecordId]) -> RecordId {
     // {"i": k}: k-th id issued in this history (ids past the end fall back to a never-issued id); {"raw": id}
@@ -312,6 +345,122 @@ fn probe(st: &dyn BlobStore, id: RecordId, shadow: &HashMap<RecordId, Vec<u8>>) 
 /// Finding classes of the unchanged tree (decidable predicates on the case, see findings/C03.txt).
 fn history_class(_spec: &str, _detail: &str) -> Option<&'static str> { None }
 
+
+// ---------------------------------------------------------------------------------------------
+// the stack as a term of ModelCases.skind
+// ---------------------------------------------------------------------------------------------
+#[derive(Clone, Copy, PartialEq)]
+enum WKind { Zstd, Huff(bool), Pass, Cached(u8, bool) }
+fn wrapper_kind(head: &str) -> Option<WKind> {
+    Some(match head {
+        "zstd1" | "zstd3" | "zstd19" => WKind::Zstd,
+        "huffman" => WKind::Huff(false),
+        "huffman_t" => WKind::Huff(true),
+        "rans" | "rans_t" | "dict" | "dict_t" => WKind::Pass,
+        "cached_wt" | "cached_mem" | "cached_sec" => WKind::Cached(0, true),
+        "cached_wb" => WKind::Cached(1, true),
+        "cached_wa" => WKind::Cached(2, true),
+        "cached_off" => WKind::Cached(0, false),
+        _ => return None,
+    })
+}
+/// The wrappers of a stack (outermost first) and the model term of its base store; None: a layer has no mechanism model.
+fn xmodel_of(spec: &str) -> Option<(Vec<WKind>, String)> {
+    let parts: Vec<&str> = spec.split('/').collect();
+    let (base, heads) = parts.split_last()?;
+    let mut ws = vec![];
+    for h in heads { ws.push(wrapper_kind(h)?); }
+    let b = match *base {
+        "memory" | "memory_cap" => "KMem".to_string(),
+        "plain" => "KPlain".to_string(),
+        "zero" => "KZero".to_string(),
+        s if s.starts_with("dictzip") => {
+            // the two parameters the bookkeeping model reads; the observations do not depend on them
+            let (min, ent) = match s.strip_prefix("dictzip_").unwrap_or("default") { "small10" => (10, false), "huff1" | "huff4" | "fse" => (10, true), "text" => (32, false), "binary" => (128, false), "log" => (16, false), "realtime" => (256, false), _ => (64, false) };
+            format!("(KDictZip {{| dz_min := {}; dz_entropy := {} |}} false)", min, ent)
+        }
+        _ => return None,
+    };
+    Some((ws, b))
+}
+fn coq_table(t: &[(Vec<u8>, Vec<u8>)]) -> String {
+    format!("[{}]", t.iter().map(|(a, b)| format!("({}, {})", coq_bytes(a), coq_bytes(b))).collect::<Vec<_>>().join("; "))
+}
+fn kind_term(ws: &[WKind], base: &str, tables: &[Vec<(Vec<u8>, Vec<u8>)>]) -> String {
+    match ws.split_first() {
+        None => base.to_string(),
+        Some((w, rest)) => {
+            let inner = kind_term(rest, base, &tables[1..]);
+            match w {
+                WKind::Zstd => format!("(KZstd {} {})", coq_table(&tables[0]), inner),
+                WKind::Huff(t) => format!("(KHuff {} {} {})", coq_bool(*t), coq_table(&tables[0]), inner),
+                WKind::Pass => format!("(KPass {})", inner),
+                WKind::Cached(st, en) => format!("(KCachedNo {} {} {})", st, coq_bool(*en), inner),
+            }
+        }
+    }
+}
+/// obs_query of the model: what get + contains + size answered, as one list
+fn obs_of(r: Option<&Vec<u8>>) -> String {
+    match r { Some(d) => { let mut v = vec![1u128, d.len() as u128]; v.extend(d.iter().map(|&b| b as u128)); coq_n_list(v) } None => "[0]%N".into() }
+}
+/// Bookkeeping of one history for the Coq case of the whole stack.
+struct XTrace {
+    ws: Vec<WKind>, base: String, ok: bool, spec_too: bool,
+    ops: Vec<String>, obs: Vec<String>,
+    tables: Vec<Vec<(Vec<u8>, Vec<u8>)>>,
+    base_map: std::collections::BTreeMap<RecordId, Vec<u8>>,
+}
+impl XTrace {
+    fn new(spec: &str) -> Option<XTrace> {
+        let (ws, base) = xmodel_of(spec)?;
+        let n = ws.len();
+        Some(XTrace { ws, base, ok: true, spec_too: true, ops: vec![], obs: vec![], tables: vec![vec![]; n], base_map: Default::default() })
+    }
+    fn push(&mut self, op: String, obs: String) { self.ops.push(op); self.obs.push(obs); }
+    /// Digest what the layers logged during one outer operation whose records (if it stored any) were `recs`.
+    fn absorb(&mut self, recs: &[Vec<u8>], stored: bool) {
+        let evs = xlog_take();
+        let nw = self.ws.len();
+        for e in &evs {
+            match e {
+                XEv::Put { level, data, id: Some(id) } if *level == nw => { self.base_map.insert(*id, data.clone()); }
+                XEv::Remove { level, id } if *level == nw => { self.base_map.remove(id); }
+                _ => {}
+            }
+        }
+        if !stored || nw == 0 { return; }
+        let mut lv: Vec<Vec<&Vec<u8>>> = vec![recs.iter().collect()];
+        for l in 1..=nw { lv.push(evs.iter().filter_map(|e| match e { XEv::Put { level, data, .. } if *level == l => Some(data), _ => None }).collect()); }
+        if lv.iter().any(|x| x.len() != recs.len()) { self.ok = false; return; }
+        for l in 0..nw {
+            for i in 0..recs.len() {
+                let (a, b) = (lv[l][i], lv[l + 1][i]);
+                let entry = match self.ws[l] {
+                    WKind::Zstd => Some((a.clone(), b.clone())),
+                    WKind::Huff(_) => if b.first() == Some(&1) && b.len() >= 9 { Some((a.clone(), b[9..].to_vec())) } else { None },
+                    _ => None,
+                };
+                if let Some(e) = entry { if !self.tables[l].iter().any(|x| x.0 == e.0) { self.tables[l].push(e); } }
+            }
+        }
+    }
+    fn term(&self, spec: &str, dir: Option<Vec<(Vec<u8>, Vec<u8>)>>) -> Option<String> {
+        if !self.ok || self.ops.is_empty() { return None; }
+        let has_reopen = self.ops.iter().any(|o| o == "PReopen");
+        if spec == "plain" {
+            let d = dir?;
+            let ops: Vec<String> = self.ops.iter().map(|o| if o == "PReopen" { o.clone() } else { format!("PX ({})", o) }).collect();
+            return Some(format!("XPlain [{}] [{}] {}", ops.join("; "), self.obs.join("; "), coq_table(&d)));
+        }
+        if has_reopen { return None; }
+        let has_base = self.base == "KMem" && !self.ws.is_empty();
+        let dump = if has_base { format!("[{}]", self.base_map.iter().map(|(id, d)| format!("({}, {})", id, coq_bytes(d))).collect::<Vec<_>>().join("; ")) } else { "[]".to_string() };
+        Some(format!("XHist {} [{}] [{}] {} {} {}", kind_term(&self.ws, &self.base, &self.tables), self.ops.join("; "), self.obs.join("; "),
+            coq_bool(self.spec_too), coq_bool(has_base), dump))
+    }
+}
+
 fn run_history(cx: &mut Ctx, case: &Value, force_coq: bool) {
     let spec = case["cell"].as_str().unwrap_or("memory").to_string();
     let cell = format!("history/{}", spec);
@@ -330,23 +479,28 @@ fn run_history(cx: &mut Ctx, case: &Value, force_coq: bool) {
     let mut obs: Vec<String> = vec![];   // observations for the Coq model (memory cell only)
     let mut coq_ops: Vec<String> = vec![];
     let mut coq_ok = spec == "memory";
+    let mut xt = XTrace::new(&spec);
+    let _ = xlog_take();
+    macro_rules! xt { ($f:expr) => { if let Some(x) = xt.as_mut() { ($f)(x); } } }
     'ops: for (k, op) in ops.iter().enumerate() {
         let name = op[0].as_str().unwrap_or("");
         let mut fail = |m: String| { Some(format!("op #{} {}: {}", k, op, m)) };
         match name {
             "put" => {
                 let data = rec_bytes(&op[1]);
-                if data.len() > 64 { coq_ok = false; }
+                if data.len() > 64 { coq_ok = false; xt!(|x: &mut XTrace| x.ok = false); }
                 if data.len() >= 1000 { cx.sum.dist(if op[1][0] == 1 { "put_records_ge_1000_bytes_incompressible" } else { "put_records_ge_1000_bytes_compressible" }); }
                 if data.is_empty() { cx.sum.dist("put_empty_records"); }
                 match guarded(|| st.bs().put(&data)) {
                     Err(p) => { failure = fail(format!("put panicked: {}", p)); break 'ops; }
                     Ok(Err(e)) => { if !put_may_refuse(&spec, &data) { failure = fail(format!("put of a {}-byte record refused: {}", data.len(), e)); break 'ops; }
+                                    xt!(|x: &mut XTrace| { x.absorb(&[], false); x.spec_too = false; x.push(format!("XO (MPut {})", coq_bytes(&data)), "[]%N".into()); });
                                     cx.sum.dist("put_refused_allowed"); }
                     Ok(Ok(id)) => {
                         if shadow.contains_key(&id) { failure = fail(format!("put returned id {} which is the id of another live record", id)); break 'ops; }
                         coq_ops.push(format!("MPut {}", coq_bytes(&data)));
                         obs.push(format!("[{}]%N", id));
+                        xt!(|x: &mut XTrace| { x.absorb(std::slice::from_ref(&data), true); x.push(format!("XO (MPut {})", coq_bytes(&data)), format!("[{}]%N", id)); });
                         shadow.insert(id, data); issued.push(id); ever.insert(id);
                     }
                 }
@@ -354,7 +508,7 @@ fn run_history(cx: &mut Ctx, case: &Value, force_coq: bool) {
             "batch" => {
                 let recs: Vec<Vec<u8>> = op[1].as_array().map(|a| a.iter().map(rec_bytes).collect()).unwrap_or_default();
                 if !st.has_batch() || recs.iter().any(|d| put_may_refuse(&spec, d)) { continue; }
-                if recs.iter().any(|d| d.len() > 64) { coq_ok = false; }
+                if recs.iter().any(|d| d.len() > 64) { coq_ok = false; xt!(|x: &mut XTrace| x.ok = false); }
                 let rc = recs.clone();
                 match guarded(|| st.put_batch_dyn(rc)) {
                     Err(p) => { failure = fail(format!("put_batch panicked: {}", p)); break 'ops; }
@@ -363,6 +517,7 @@ fn run_history(cx: &mut Ctx, case: &Value, force_coq: bool) {
                         if ids.len() != recs.len() { failure = fail(format!("put_batch of {} records returned {} ids", recs.len(), ids.len())); break 'ops; }
                         coq_ops.push(format!("MBatch [{}]", recs.iter().map(|d| coq_bytes(d)).collect::<Vec<_>>().join("; ")));
                         obs.push(coq_n_list(ids.iter().map(|&i| i as u128)));
+                        xt!(|x: &mut XTrace| { x.absorb(&recs, true); x.push(format!("XO (MBatch [{}])", recs.iter().map(|d| coq_bytes(d)).collect::<Vec<_>>().join("; ")), coq_n_list(ids.iter().map(|&i| i as u128))); });
                         for (id, d) in ids.iter().zip(recs.into_iter()) {
                             if shadow.contains_key(id) { failure = fail(format!("put_batch returned id {} which is the id of another live record", id)); break 'ops; }
                             shadow.insert(*id, d); issued.push(*id); ever.insert(*id);
@@ -375,8 +530,9 @@ fn run_history(cx: &mut Ctx, case: &Value, force_coq: bool) {
                 let live = shadow.contains_key(&id);
                 match guarded(|| st.bs().remove(id)) {
                     Err(p) => { failure = fail(format!("remove({}) panicked: {}", id, p)); break 'ops; }
-                    Ok(Ok(())) => { shadow.remove(&id); obs.push("[1]%N".into()); }
-                    Ok(Err(e)) => { if live && supports_remove(&spec) { failure = fail(format!("remove({}) of a live record failed: {}", id, e)); break 'ops; } obs.push("[0]%N".into()); }
+                    Ok(Ok(())) => { shadow.remove(&id); obs.push("[1]%N".into()); xt!(|x: &mut XTrace| { x.absorb(&[], false); x.push(format!("XO (MRemove {})", id), "[1]%N".into()); }); }
+                    Ok(Err(e)) => { if live && supports_remove(&spec) { failure = fail(format!("remove({}) of a live record failed: {}", id, e)); break 'ops; } obs.push("[0]%N".into());
+                                    xt!(|x: &mut XTrace| { x.absorb(&[], false); if live { x.spec_too = false; } x.push(format!("XO (MRemove {})", id), "[0]%N".into()); }); }
                 }
                 coq_ops.push(format!("MRemove {}", id));
             }
@@ -384,7 +540,12 @@ fn run_history(cx: &mut Ctx, case: &Value, force_coq: bool) {
                 // remove_batch: every listed live id is gone afterwards and the count says how many were removed
                 let ids: Vec<RecordId> = op[1].as_array().map(|a| a.iter().map(|x| resolve(x, &issued)).collect()).unwrap_or_default();
                 if !st.has_batch() || !supports_remove(&spec) {
-                    for &id in &ids { if st.bs().remove(id).is_ok() { shadow.remove(&id); } }
+                    for &id in &ids {
+                        let live = shadow.contains_key(&id);
+                        let okr = st.bs().remove(id).is_ok();
+                        if okr { shadow.remove(&id); }
+                        xt!(|x: &mut XTrace| { x.absorb(&[], false); if live && !okr { x.spec_too = false; } x.push(format!("XO (MRemove {})", id), if okr { "[1]%N".into() } else { "[0]%N".into() }); });
+                    }
                     coq_ok = false;
                 } else {
                     let mut distinct_live: Vec<RecordId> = ids.iter().copied().filter(|i| shadow.contains_key(i)).collect();
@@ -395,11 +556,12 @@ fn run_history(cx: &mut Ctx, case: &Value, force_coq: bool) {
                         Ok(Ok(n)) => {
                             if n != distinct_live.len() { failure = fail(format!("remove_batch({:?}) reported {} removed records but {} of the ids were live", ids, n, distinct_live.len())); break 'ops; }
                             for id in &ids { obs.push(if shadow.remove(id).is_some() { "[1]%N".into() } else { "[0]%N".into() }); coq_ops.push(format!("MRemove {}", id)); }
+                            xt!(|x: &mut XTrace| { x.absorb(&[], false); x.push(format!("XRmBatch {}", coq_n_list(ids.iter().map(|&i| i as u128))), format!("[{}]%N", n)); });
                         }
                         Ok(Err(e)) => {
                             if distinct_live.len() == ids.len() { failure = fail(format!("remove_batch({:?}) of live records failed: {}", ids, e)); break 'ops; }
                             // an error because some id was absent: whatever was removed must be consistently gone
-                            coq_ok = false;
+                            coq_ok = false; xt!(|x: &mut XTrace| x.ok = false);
                             for id in &distinct_live { if !st.bs_ref().contains(*id) { shadow.remove(id); } }
                         }
                     }
@@ -413,8 +575,10 @@ fn run_history(cx: &mut Ctx, case: &Value, force_coq: bool) {
                     let idc = ids.clone();
                     match guarded(|| st.get_batch_dyn(idc)) {
                         Err(p) => { failure = fail(format!("get_batch panicked: {}", p)); break 'ops; }
-                        Ok(Err(e)) => { if ids.iter().all(|i| shadow.contains_key(i)) { failure = fail(format!("get_batch({:?}) of live records failed: {}", ids, e)); break 'ops; } }
+                        Ok(Err(e)) => { if ids.iter().all(|i| shadow.contains_key(i)) { failure = fail(format!("get_batch({:?}) of live records failed: {}", ids, e)); break 'ops; } xt!(|x: &mut XTrace| x.ok = false); }
                         Ok(Ok(v)) => {
+                            xt!(|x: &mut XTrace| { x.absorb(&[], false); x.push(format!("XGetBatch {}", coq_n_list(ids.iter().map(|&i| i as u128))),
+                                coq_n_list(v.iter().flat_map(|g| match g { Some(d) => { let mut o = vec![1u128, d.len() as u128]; o.extend(d.iter().map(|&b| b as u128)); o } None => vec![0u128] }))); });
                             if v.len() != ids.len() { failure = fail(format!("get_batch of {} ids returned {} answers", ids.len(), v.len())); break 'ops; }
                             for (id, g) in ids.iter().zip(v.iter()) {
                                 if g.as_ref() != shadow.get(id) { failure = fail(format!("get_batch: id {} answered {:?} but the shadow holds {:?}", id, g.as_ref().map(|d| hex(d)), shadow.get(id).map(|d| hex(d)))); break 'ops; }
@@ -426,7 +590,8 @@ fn run_history(cx: &mut Ctx, case: &Value, force_coq: bool) {
                 for &id in &ids {
                     if let Some(m) = probe(st.bs_ref(), id, &shadow) { failure = fail(m); break 'ops; }
                     coq_ops.push(format!("MQuery {}", id));
-                    obs.push(match shadow.get(&id) { Some(d) => { let mut v = vec![1u128, d.len() as u128]; v.extend(d.iter().map(|&b| b as u128)); coq_n_list(v) } None => "[0]%N".into() });
+                    obs.push(obs_of(shadow.get(&id)));
+                    xt!(|x: &mut XTrace| { x.absorb(&[], false); x.push(format!("XO (MQuery {})", id), obs_of(shadow.get(&id))); });
                 }
             }
             "get" | "has" | "size" => {
@@ -434,13 +599,15 @@ fn run_history(cx: &mut Ctx, case: &Value, force_coq: bool) {
                 if let Some(m) = probe(st.bs_ref(), id, &shadow) { failure = fail(m); break 'ops; }
                 // the model is asked the same three questions
                 coq_ops.push(format!("MQuery {}", id));
-                obs.push(match shadow.get(&id) { Some(d) => { let mut v = vec![1u128, d.len() as u128]; v.extend(d.iter().map(|&b| b as u128)); coq_n_list(v) } None => "[0]%N".into() });
+                obs.push(obs_of(shadow.get(&id)));
+                xt!(|x: &mut XTrace| { x.absorb(&[], false); x.push(format!("XO (MQuery {})", id), obs_of(shadow.get(&id))); });
             }
             "len" => {
                 match guarded(|| st.bs_ref().len()) {
                     Err(p) => { failure = fail(format!("len panicked: {}", p)); break 'ops; }
                     Ok(n) => { if n != shadow.len() { failure = fail(format!("len() = {} but {} records are live", n, shadow.len())); break 'ops; }
-                               coq_ops.push("MLen".into()); obs.push(format!("[{}]%N", n)); }
+                               coq_ops.push("MLen".into()); obs.push(format!("[{}]%N", n));
+                               xt!(|x: &mut XTrace| x.push("XO MLen".into(), format!("[{}]%N", n))); }
                 }
                 match guarded(|| st.bs_ref().is_empty()) {
                     Ok(e) if e == shadow.is_empty() => {}
@@ -453,7 +620,7 @@ fn run_history(cx: &mut Ctx, case: &Value, force_coq: bool) {
                 match guarded(move || st.reopen()) {
                     Err(p) => { failure = fail(format!("save/load panicked: {}", p)); st = Box::new(MemoryBlobStore::new()); break 'ops; }
                     Ok(Err(e)) => { failure = fail(format!("save/load failed: {}", e)); st = Box::new(MemoryBlobStore::new()); break 'ops; }
-                    Ok(Ok(s2)) => { st = s2; cx.sum.dist("reopen_ops"); }
+                    Ok(Ok(s2)) => { st = s2; cx.sum.dist("reopen_ops"); xt!(|x: &mut XTrace| { if spec == "plain" { x.push("PReopen".into(), "[1]%N".into()); } else { x.ok = false; } }); }
                 }
                 // a re-loaded store answers identically: sweep now
                 let mut ids: Vec<RecordId> = ever.iter().copied().collect(); ids.sort();
@@ -486,8 +653,21 @@ fn run_history(cx: &mut Ctx, case: &Value, force_coq: bool) {
         cx.sum.fail(&cell, class, case.clone(), m);
     } else if coq_ok && !coq_ops.is_empty() && (force_coq || cx.n_hist < cx.budget * 2 / 5) {
         cx.n_hist += 1;
-        let term = format!("CMem [{}] [{}]", coq_ops.join("; "), obs.join("; "));
+        let term = format!("XOld (CMem [{}] [{}])", coq_ops.join("; "), obs.join("; "));
         cx.shards.push(term, case.clone());
+    }
+    if failure.is_none() {
+        if let Some(x) = xt.as_ref() {
+            if force_coq || (cx.n_xhist < cx.budget / 2 && (spec != "memory" || cx.n_xmem < cx.budget / 30)) {
+                // the real directory of a PlainBlobStore at the end of the history
+                let dir = if spec == "plain" { plain_dir.as_ref().and_then(|d| std::fs::read_dir(d).ok()).map(|rd| {
+                    let mut v: Vec<(Vec<u8>, Vec<u8>)> = rd.filter_map(|e| e.ok()).map(|e| (e.file_name().to_string_lossy().as_bytes().to_vec(), std::fs::read(e.path()).unwrap_or_default())).collect();
+                    v.sort(); v }) } else { None };
+                if let Some(t) = x.term(&spec, dir) {
+                    if t.len() < 60_000 { cx.n_xhist += 1; if spec == "memory" { cx.n_xmem += 1; } cx.sum.dist("coq_stack_history_cases"); cx.shards.push(t, case.clone()); }
+                }
+            }
+        }
     }
     drop(st);
     if let Some(d) = plain_dir { let _ = std::fs::remove_dir_all(d); }
@@ -516,7 +696,10 @@ fn gen_history_sized(r: &mut Rng, spec: &str, max_ops: u64, small: bool) -> Valu
             0..=34 => { let rec = if zero && r.chance(5, 6) { json!([0, 0, 0]) } else { gen_rec(r, common) }; ops.push(json!(["put", rec])); issued += 1; }
             35..=42 => { let k = r.range(0, 5); let recs: Vec<Value> = (0..k).map(|_| if zero { json!([0, 0, 0]) } else { gen_rec(r, common) }).collect(); issued += k as usize; ops.push(json!(["batch", recs])); }
             43..=55 => ops.push(json!(["rm", gen_idref(r, issued)])),
-            56..=59 => { let k = r.range(0, 4); let ids: Vec<Value> = (0..k).map(|_| gen_idref(r, issued)).collect(); ops.push(json!(["rmb", ids])); }
+            56..=59 => { let k = r.range(0, 4); let ids: Vec<Value> = (0..k).map(|_| gen_idref(r, issued)).collect();
+                         // a record that was read (and so may sit in a cache) just before it is removed in a batch
+                         if k > 0 && r.chance(1, 2) { ops.push(json!(["get", ids[0].clone()])); }
+                         ops.push(json!(["rmb", ids])); }
             60..=75 => ops.push(json!(["get", gen_idref(r, issued)])),
             76..=79 => { let k = r.range(0, 4); let ids: Vec<Value> = (0..k).map(|_| gen_idref(r, issued)).collect(); ops.push(json!(["getb", ids])); }
             80..=85 => ops.push(json!(["has", gen_idref(r, issued)])),
@@ -598,6 +781,7 @@ fn run_build(cx: &mut Ctx, case: &Value, _force_coq: bool) {
     let mut coq_term: Option<String> = None;
     let small = recs.len() <= 140 && recs.iter().map(|d| d.len()).sum::<usize>() <= 1600;
     let recs_coq = format!("[{}]", recs.iter().map(|d| coq_bytes(d)).collect::<Vec<_>>().join("; "));
+    let plain_env_dir = cx.env.dir.clone();
     let r = guarded(|| -> Option<String> {
         match kind {
             "zipoffset" | "zipoffset_batch" => {
@@ -726,6 +910,50 @@ fn run_build(cx: &mut Ctx, case: &Value, _force_coq: bool) {
                 if s.len() != shadow.len() { return Some(format!("len() = {} but {} records are live", s.len(), shadow.len())); }
                 None
             }
+            "plain_seeded" => {
+                // PlainBlobStore::new on a directory that already holds record files (ids given), then puts: a new id must
+                // never be the id of a live record; new() itself must not panic
+                let ids: Vec<u64> = case["ids"].as_array().map(|a| a.iter().map(|x| x.as_u64().unwrap_or(0)).collect()).unwrap_or_default();
+                let dir = format!("{}/plain_seeded_{}", plain_env_dir, case.to_string().len() ^ (ids.iter().sum::<u64>() as usize));
+                let _ = std::fs::remove_dir_all(&dir);
+                if std::fs::create_dir_all(&dir).is_err() { return Some("cannot create the directory".into()); }
+                let mut shadow: HashMap<RecordId, Vec<u8>> = HashMap::new();
+                let mut seeded: Vec<(Vec<u8>, Vec<u8>)> = vec![];
+                for (id, d) in ids.iter().zip(recs.iter()) {
+                    if std::fs::write(format!("{}/{}", dir, id), d).is_err() { return Some("cannot write a record file".into()); }
+                    shadow.insert(*id as RecordId, d.clone());
+                }
+                for (id, d) in &shadow { seeded.push((format!("{}", id).into_bytes(), d.clone())); }
+                seeded.sort();
+                let res = (|| -> Option<String> {
+                    let mut s = match guarded(|| PlainBlobStore::new(&dir)) {
+                        Ok(Ok(s)) => s,
+                        Ok(Err(e)) => return Some(format!("new() on a directory of record files failed: {}", e)),
+                        Err(p) => { coq_term = Some(format!("XPlainOpen {} [] [[0]%N] []", coq_table(&seeded))); return Some(format!("new() on a directory of record files panicked: {}", p)); }
+                    };
+                    let mut all0: Vec<RecordId> = shadow.keys().copied().collect(); all0.sort();
+                    for id in all0 { if let Some(x) = probe(&s, id, &shadow) { return Some(format!("after new(): {}", x)); } }
+                    if s.len() != shadow.len() { return Some(format!("after new(): len() = {} but the directory holds {} records", s.len(), shadow.len())); }
+                    let mut ops: Vec<String> = vec![]; let mut obs: Vec<String> = vec!["[1]%N".into()];
+                    for k in 0..case["puts"].as_u64().unwrap_or(3) {
+                        let d = vec![200u8, k as u8];
+                        match s.put(&d) {
+                            Ok(id) => { if shadow.contains_key(&id) { return Some(format!("put #{} returned id {} which is the id of a live record", k, id)); }
+                                        ops.push(format!("PX (XO (MPut {}))", coq_bytes(&d))); obs.push(format!("[{}]%N", id)); shadow.insert(id, d); }
+                            Err(e) => return Some(format!("put failed: {}", e)),
+                        }
+                    }
+                    let mut all: Vec<RecordId> = shadow.keys().copied().collect(); all.sort();
+                    for id in all { if let Some(x) = probe(&s, id, &shadow) { return Some(x); } }
+                    if s.len() != shadow.len() { return Some(format!("len() = {} but {} records are live", s.len(), shadow.len())); }
+                    let mut listing: Vec<(Vec<u8>, Vec<u8>)> = std::fs::read_dir(&dir).ok()?.filter_map(|e| e.ok()).map(|e| (e.file_name().to_string_lossy().as_bytes().to_vec(), std::fs::read(e.path()).unwrap_or_default())).collect();
+                    listing.sort();
+                    coq_term = Some(format!("XPlainOpen {} [{}] [{}] {}", coq_table(&seeded), ops.join("; "), obs.join("; "), coq_table(&listing)));
+                    None
+                })();
+                let _ = std::fs::remove_dir_all(&dir);
+                res
+            }
             "nlt_builder" => {
                 let cfg = match cfgname { "perf" => TrieBlobStoreConfig::performance_optimized(), "mem" => TrieBlobStoreConfig::memory_optimized(), "sec" => TrieBlobStoreConfig::security_optimized(), _ => TrieBlobStoreConfig::default() };
                 let mut b = match NestLoudsTrieBlobStoreBuilder::<RankSelectInterleaved256>::new(cfg) { Ok(b) => b, Err(e) => return Some(format!("builder construction failed: {}", e)) };
@@ -749,10 +977,12 @@ fn run_build(cx: &mut Ctx, case: &Value, _force_coq: bool) {
     });
     match r { Ok(x) => failure = x, Err(p) => failure = Some(format!("panicked: {}", p)) }
     if let Some(m) = failure {
-        let class = if kind == "memory_seeded" && seeded_wraps(case) { Some("memory_id_wraparound") } else { None };
+        let class = if kind == "memory_seeded" && seeded_wraps(case) { Some("memory_id_wraparound") } else if kind == "plain_seeded" && seeded_wraps(case) { Some("plain_id_wraparound") } else { None };
         cx.sum.fail(&cell, class, case.clone(), &m);
+        // the model predicts the panic of new() as well
+        if let (Some(t), true) = (coq_term, kind == "plain_seeded" && class.is_some()) { cx.shards.push(t, case.clone()); }
     } else if let Some(t) = coq_term {
-        if _force_coq || cx.shards.len() < cx.budget { cx.shards.push(t, case.clone()); }
+        if _force_coq || cx.shards.len() < cx.budget { cx.shards.push(if t.starts_with("XPlainOpen") { t } else { format!("XOld ({})", t) }, case.clone()); }
     }
 }
 
@@ -889,6 +1119,27 @@ fn run_case(cx: &mut Ctx, case: &Value, force: bool) {
     }
 }
 
+/// PlainBlobStore histories with many close + reopen steps (small records)
+fn gen_plain_reopen(r: &mut Rng) -> Value {
+    let n = r.range(5, 22);
+    let mut ops: Vec<Value> = vec![];
+    let mut issued = 0usize;
+    let rec = |r: &mut Rng| json!([r.below(5), *r.pick(&[0u64, 0, 1, 2, 3, 5, 8, 13]), r.below(100)]);
+    for _ in 0..n {
+        match r.below(100) {
+            0..=31 => { ops.push(json!(["put", rec(r)])); issued += 1; }
+            32..=38 => { let k = r.range(0, 4); let recs: Vec<Value> = (0..k).map(|_| rec(r)).collect(); issued += k as usize; ops.push(json!(["batch", recs])); }
+            39..=58 => ops.push(json!(["rm", if issued > 0 && r.chance(2, 3) { json!({"i": issued - 1 - r.below(issued.min(2) as u64) as usize}) } else { gen_idref(r, issued) }])),
+            59..=62 => { let k = r.range(0, 4); let ids: Vec<Value> = (0..k).map(|_| gen_idref(r, issued)).collect(); ops.push(json!(["rmb", ids])); }
+            63..=78 => ops.push(json!(["reopen"])),
+            79..=88 => ops.push(json!(["get", gen_idref(r, issued)])),
+            89..=92 => { let k = r.range(0, 4); let ids: Vec<Value> = (0..k).map(|_| gen_idref(r, issued)).collect(); ops.push(json!(["getb", ids])); }
+            _ => ops.push(json!(["len"])),
+        }
+    }
+    json!({"cell": "plain", "kind": "history", "ops": ops})
+}
+
 const HISTORY_CELLS: [&str; 34] = [
     "memory", "memory", "memory_cap", "plain", "zstd1/memory", "zstd3/memory", "zstd19/memory", "zstd3/plain",
     "huffman/memory", "huffman_t/memory", "rans/memory", "rans_t/memory", "dict/memory", "dict_t/memory",
@@ -897,6 +1148,13 @@ const HISTORY_CELLS: [&str; 34] = [
     "zero", "nlt", "nlt_perf", "nlt_mem", "nlt_sec", "dictzip_default", "dictzip_small10", "dictzip_text", "dictzip_huff1",
 ];
 const HISTORY_CELLS_MORE: [&str; 6] = ["dictzip_binary", "dictzip_log", "dictzip_realtime", "dictzip_huff4", "dictzip_fse", "rans_t/zstd1/plain"];
+const MODELLED_STACKS: [&str; 30] = [
+    "memory", "memory_cap", "plain", "zero", "zstd1/memory", "zstd3/memory", "zstd19/memory", "zstd3/plain",
+    "huffman/memory", "huffman_t/memory", "rans/memory", "rans_t/memory", "dict/memory", "dict_t/memory",
+    "cached_wt/memory", "cached_wb/memory", "cached_wa/memory", "cached_mem/memory", "cached_sec/memory", "cached_off/memory",
+    "zstd3/cached_wt/memory", "cached_wt/zstd3/memory", "huffman_t/zstd3/memory", "zstd3/huffman_t/memory", "cached_wb/huffman_t/memory",
+    "rans_t/zstd1/plain", "dictzip_default", "dictzip_small10", "dictzip_huff1", "dictzip_fse",
+];
 const BUILD_CELLS: [&str; 27] = [
     "zipoffset:default", "zipoffset:perf", "zipoffset:comp", "zipoffset:sec", "zipoffset:c0k0od", "zipoffset:c0k2od", "zipoffset:c0k3om",
     "zipoffset:c0k1op", "zipoffset:c1k0om", "zipoffset:c3k2op", "zipoffset:c0k0om", "zipoffset:c0k2op",
@@ -911,6 +1169,8 @@ pub fn run(args: &Args) {
         shards: CoqShards::new(HEADER, 300),
         budget: if args.thorough { 6000 } else { 1200 },
         n_hist: 0,
+        n_xhist: 0,
+        n_xmem: 0,
         env: Env { dir: args.out.clone(), n: 0 },
     };
     cx.sum.max_failures = 300;
@@ -1002,15 +1262,40 @@ pub fn run(args: &Args) {
         let c = json!({"cell": "memory_seeded", "kind": "build", "ids": ids, "recs": recs, "puts": rng.range(1, 4)});
         run_case(&mut cx, &c, false);
     }
+    // 4b. PlainBlobStore opened on a directory that already holds record files, incl. names next to u32::MAX
+    for _ in 0..(if args.thorough { 200 } else { 24 }) {
+        let n = rng.range(1, 5);
+        let base: u64 = match rng.below(6) { 0 => 0, 1 => 1, 2 => rng.below(100000), 3 => 1 << 31, 4 => u32::MAX as u64 - n - rng.below(6), _ => rng.below(u32::MAX as u64 - 10) };
+        let mut ids: Vec<u64> = (0..n).map(|i| (base + i * rng.range(1, 3)).min(u32::MAX as u64)).collect();
+        ids.dedup();
+        if rng.chance(1, 3) { ids.insert(0, 1); ids.dedup(); }
+        let recs: Vec<Value> = ids.iter().map(|_| json!([1, rng.below(6), rng.below(100)])).collect();
+        let c = json!({"cell": "plain_seeded", "kind": "build", "ids": ids, "recs": recs, "puts": rng.range(1, 4)});
+        run_case(&mut cx, &c, false);
+    }
     // 5. keyed histories on the trie store
     for round in 0..(if args.thorough { 400 } else { 80 }) {
         let spec = ["nlt_keyed:default", "nlt_keyed:perf", "nlt_keyed:mem", "nlt_keyed:sec"][round % 4];
         let c = gen_keyed(&mut rng, spec);
         run_case(&mut cx, &c, false);
     }
+    // 6. small-record histories on every stack that has a mechanism model: each becomes a Coq case of the whole stack
+    //    (observations of every operation, what the innermost store ends up holding, the directory of a PlainBlobStore)
+    for round in 0..(if args.thorough { 60 } else { 12 }) {
+        for spec in MODELLED_STACKS.iter() {
+            if (spec.contains("plain") || spec.starts_with("dictzip")) && !args.thorough && round >= 6 { continue; }
+            let max_ops = if spec.contains("plain") { 20 } else { 36 };
+            let c = gen_history_sized(&mut rng, spec, max_ops, true);
+            run_case(&mut cx, &c, false);
+        }
+    }
+    for _ in 0..(if args.thorough { 400 } else { 40 }) {
+        let c = gen_plain_reopen(&mut rng);
+        run_case(&mut cx, &c, false);
+    }
     cx.sum.dist_max("coq_cases", cx.shards.len() as u64);
     for (cell, _) in cx.sum.cells.clone() {
-        let modelled = cell == "history/memory" || cell.starts_with("build/zipoffset:c0") || cell.starts_with("build/mixed") || cell.starts_with("build/simplezip") || cell == "build/zeroputs";
+        let modelled = cell.strip_prefix("history/").map(|sp| xmodel_of(sp).is_some()).unwrap_or(false) || cell.starts_with("build/zipoffset:c0") || cell.starts_with("build/mixed") || cell.starts_with("build/simplezip") || cell == "build/zeroputs" || cell == "build/plain_seeded";
         if !modelled { cx.sum.cell_status(&cell, "S-only"); }
     }
     let sh = cx.shards.write(&args.out);
